@@ -206,6 +206,36 @@ def run(ctx):
             ctx.corr_disagreements.append({"case": l, "impl": str(e)[:600], "model": g[:600], "tag": l.split()[0]})
     ctx.sample({"line": lines[0], "impl": str(expect[0])[:300]})
     ctx.sample({"line": lines[-1], "impl": str(expect[-1])})
+    # S4: directed witnesses of the listed findings, replayed on the implementation
+    def w_layernorm():
+        torch.manual_seed(0)
+        m = torch.nn.Sequential(torch.nn.LayerNorm(6), torch.nn.Linear(6, 4))
+        f = torch.nn.Sequential(torch.nn.LayerNorm(6), torch.nn.Linear(6, 4))
+        quantize(m, weights=q.qint8, activations=q.qint8)
+        freeze(m)
+        try:
+            requantize(f, m.state_dict())
+            return False
+        except Exception:  # noqa
+            return True
+
+    def w_group():
+        torch.manual_seed(0)
+        m = torch.nn.Sequential(torch.nn.Linear(160, 4))
+        f = torch.nn.Sequential(torch.nn.Linear(160, 4))
+        quantize(m, weights=q.qint4)
+        x = torch.randn(2, 160)
+        quantize(f)
+        f.load_state_dict(m.state_dict())
+        with torch.no_grad():
+            return out_bits(f(x)) != out_bits(m(x))
+
+    wit = {"C10:default-quantized-target-cannot-load-layernorm-activation-state": w_layernorm,
+           "C10:unfrozen-lowbit-state-loses-group-size-in-default-target": w_group}
     for sig, f in known_signatures("C10").items():
-        pass
+        if sig in wit and wit[sig]():
+            if sig not in ctx.known_reproduced:
+                ctx.known_reproduced.append(sig)
+        else:
+            ctx.notes.append(f"known finding {sig} no longer reproduces on its witness")
     return finish(ctx, ["pickle / safetensors are trusted to carry plain tensors and strings unchanged (checked by the leaf-wise comparison)", "only the CPU device exists here"])
